@@ -272,6 +272,165 @@ def r12c(ctx: Context) -> None:
                 if owner and owner[0] == "cls" and owner[1] == context_cls:
                     rule.fail(func_key(func, node), where(func, node), f"rule code assigns to '{norm(base)}' on the scan context shared by all rules")
     rule.note(f"{len(mutators)} token mutators")
+    _token_containers(ctx, rule, token_base)
+    _context_writers(ctx, rule, context_cls)
+
+
+CONTAINER_MUTATORS = {"append", "extend", "insert", "pop", "remove", "clear", "sort", "reverse", "update", "setdefault", "popitem", "add", "discard"}
+
+
+def _token_containers(ctx: Context, rule, token_base: ClassInfo) -> None:
+    """Containers handed out by a token (``token.matter_map``, ``token.leading_spaces`` ...) are part
+    of the token every rule sees: rule code may read them, copy them, but not change them in scan mode."""
+    from sa.util import guards_of
+
+    prog = ctx.prog
+
+    def token_rooted(func: FuncInfo, expr: ast.AST) -> bool:
+        """an attribute / element chain that starts at a token-typed value which this function did not create"""
+        node = expr
+        seen_attribute = False
+        while isinstance(node, (ast.Attribute, ast.Subscript)):
+            if isinstance(node, ast.Attribute):
+                owner = prog.infer(func, node.value)
+                if owner and owner[0] == "cls" and token_base in owner[1].mro and not _fresh_receiver(prog, func, node.value):
+                    return True
+                seen_attribute = True
+            node = node.value
+        _ = seen_attribute
+        return False
+
+    for func in prog.iter_functions("pymarkdown.plugins."):
+        aliases: Dict[str, ast.AST] = {}
+        for node in walk_local(func.node):
+            if isinstance(node, (ast.Assign, ast.AnnAssign)) and getattr(node, "value", None) is not None:
+                targets = node.targets if isinstance(node, ast.Assign) else [node.target]
+                value = node.value
+                if isinstance(value, ast.Call) and dotted(value.func) == "cast" and len(value.args) == 2:
+                    value = value.args[1]
+                for target in targets:
+                    if isinstance(target, ast.Name) and token_rooted(func, value):
+                        typ = prog.infer(func, value)
+                        if typ is None or typ[0] in ("list", "dict", "set"):
+                            aliases[target.id] = value
+        if not aliases and not any(isinstance(n, (ast.Delete, ast.Call, ast.Assign, ast.AugAssign)) for n in walk_local(func.node)):
+            continue
+
+        def shared(expr: ast.AST) -> Optional[str]:
+            base = expr
+            while isinstance(base, ast.Subscript):
+                base = base.value
+            if isinstance(base, ast.Name) and base.id in aliases:
+                return f"{base.id} (= {norm(aliases[base.id])})"
+            if isinstance(base, ast.Attribute) and token_rooted(func, base):
+                typ = prog.infer(func, base)
+                if typ is None or typ[0] in ("list", "dict", "set"):
+                    return norm(base)
+            return None
+
+        only_fix = None
+        for node in walk_local(func.node):
+            victims: List[Tuple[ast.AST, str]] = []
+            if isinstance(node, ast.Delete):
+                victims = [(t, "deletes from") for t in node.targets if isinstance(t, ast.Subscript)]
+            elif isinstance(node, ast.Assign):
+                victims = [(t, "stores into") for t in node.targets if isinstance(t, ast.Subscript)]
+            elif isinstance(node, ast.AugAssign) and isinstance(node.target, ast.Subscript):
+                victims = [(node.target, "updates an element of")]
+            elif isinstance(node, ast.Call) and isinstance(node.func, ast.Attribute) and node.func.attr in CONTAINER_MUTATORS:
+                victims = [(node.func.value, f"calls .{node.func.attr}() on")]
+            for victim, verb in victims:
+                what = shared(victim.value if isinstance(victim, ast.Subscript) and verb != f"calls .{getattr(getattr(node, 'func', None), 'attr', '')}() on" else victim)
+                if what is None:
+                    continue
+                key = func_key(func, node) + " [token container]"
+                local_fix = any(norm(t).endswith("in_fix_mode") for t, pol in guards_of(func.node, node) if pol)
+                if only_fix is None:
+                    only_fix = fix_only(prog, func)
+                if local_fix or only_fix:
+                    rule.ok(key, "only executed in fix mode")
+                else:
+                    rule.fail(key, where(func, node), f"rule code {verb} '{what}', a container owned by a token of the shared stream: rules that run after this one see a different token (their reports depend on whether this rule is enabled)")
+
+
+def _context_writers(ctx: Context, rule, context_cls: ClassInfo) -> None:
+    """The scan context is shared by all rules of a pass.  In scan mode the only thing a rule may
+    do to it is report (add_triggered_rule); the fix registrations / current-line setters are
+    consulted by the dispatcher for *later* rules and must be reached in fix mode only."""
+    from sa.state import self_effects
+    from sa.util import guards_of
+
+    prog = ctx.prog
+    reporter = context_cls.methods.get("report_on_triggered_rules")
+    if reporter is None:
+        raise AnalysisError("anchor method not found: PluginScanContext.report_on_triggered_rules")
+    report_fields = set(self_effects(reporter).writes)
+    # context fields the dispatchers consult on code that also runs in scan mode
+    manager = prog.cls(PM)
+    visible: Set[str] = set()
+    work = [manager.methods[name] for name in ("starting_new_file", "next_token", "next_line", "completed_file") if name in manager.methods]
+    if len(work) != 4:
+        raise AnalysisError("the four dispatchers of the plugin manager were not found")
+    seen_funcs: Set[str] = set()
+    while work:
+        current = work.pop()
+        if current.qualname in seen_funcs:
+            continue
+        seen_funcs.add(current.qualname)
+        for node in walk_local(current.node):
+            if isinstance(node, ast.Attribute) and node.attr in context_cls.methods:
+                owner = prog.infer(current, node.value)
+                if owner and owner[0] == "cls" and owner[1] == context_cls:
+                    if any(norm(t).endswith("in_fix_mode") for t, pol in guards_of(current.node, node) if pol):
+                        continue
+                    visible |= set(self_effects(context_cls.methods[node.attr]).reads)
+        for site in prog.sites_in(current):
+            if any(norm(t).endswith("in_fix_mode") for t, pol in guards_of(current.node, site.node) if pol):
+                continue
+            work.extend(t for t in site.targets if t.cls == manager and t.qualname not in seen_funcs)
+    visible -= report_fields
+    fix_flag = set(self_effects(context_cls.methods["in_fix_mode"]).reads) if "in_fix_mode" in context_cls.methods else set()
+    visible -= fix_flag
+    if not visible:
+        raise AnalysisError("no context field is consulted by the dispatchers outside fix mode (current_fix_line confirmed)")
+    rule.note(f"context fields the dispatchers read on scan-mode paths: {sorted(visible)}")
+    writers: Dict[str, Set[str]] = {}
+    for name, method in context_cls.methods.items():
+        if name == "__init__" or method is reporter:
+            continue
+        written = set(self_effects(method).writes) & visible
+        if written:
+            writers[method.qualname] = written
+    if not writers:
+        raise AnalysisError("no method of the scan context writes a field the dispatchers consult")
+    # helpers of the plugin base class that forward to them (RulePlugin.register_fix_token_request ...)
+    base = prog.cls(RULE_PLUGIN)
+    for _round in range(3):
+        for method in base.methods.values():
+            if method.qualname in writers:
+                continue
+            for site in prog.sites_in(method):
+                hit = [t for t in site.targets if t.qualname in writers]
+                if hit and not any(norm(t).endswith("in_fix_mode") for t, pol in guards_of(method.node, site.node) if pol):
+                    writers[method.qualname] = writers[hit[0].qualname]
+    sites = 0
+    fix_cache: Dict[str, bool] = {}
+    for func in prog.iter_functions("pymarkdown.plugins."):
+        for site in prog.sites_in(func):
+            hit = [t for t in site.targets if t.qualname in writers]
+            if not hit:
+                continue
+            sites += 1
+            key = func_key(func, site.node) + " [context state]"
+            local_fix = any(norm(t).endswith("in_fix_mode") for t, pol in guards_of(func.node, site.node) if pol)
+            if func.qualname not in fix_cache:
+                fix_cache[func.qualname] = fix_only(prog, func)
+            if local_fix or fix_cache[func.qualname]:
+                rule.ok(key, "only executed in fix mode")
+            else:
+                rule.fail(key, site.where, f"rule code calls {hit[0].short}, which writes {sorted(writers[hit[0].qualname])} on the scan context shared with the rules that run after it, outside fix mode: in scan mode the dispatcher then hands later rules a different line / token")
+    if sites < 3:
+        raise AnalysisError(f"only {sites} calls from rule code to context methods that write dispatcher-visible state found (3 confirmed: MD009, MD010, MD047)")
 
 
 def r12e(ctx: Context) -> None:
